@@ -634,7 +634,7 @@ def gen_pd_script(r, big=False, quick=True, keyed=None):
     sc.add("space 1 %s" % " ".join(sp_tokens(A)), op="space", sp=A)
     sc.add("space 2 %s" % " ".join(sp_tokens(B)), op="space", sp=B)
     cdim = r.range(1, 3) if r.chance(2, 5) else None
-    nst = (r.range(20, 30) if quick else r.range(40, 70)) if big else r.range(0, 9)
+    nst = (r.range(20, 30) if quick else r.range(40, 70)) if big else (r.range(0, 9) if quick or not keyed else r.range(0, 14))
     for i in range(nst):
         at = gen_atoms(r, A, r.chance(1, 2))
         sc.add(("state %d 1 %d %s" % (i + 1, len(at), " ".join(at))).strip(), op="state", sp=A, atoms=at, regular=False)
@@ -704,7 +704,7 @@ def gen_pd_script(r, big=False, quick=True, keyed=None):
             if nv:
                 edge(r.below(nv + (1 if r.chance(1, 8) else 0)), r.below(nv))
     nv = len(verts)
-    ops = r.range(0, 2 * nv + 2) + (r.range(4, 14) if keyed else 0)
+    ops = r.range(0, 2 * nv + 2) + ((r.range(4, 14) if quick else r.range(8, 40)) if keyed else 0)     # thorough: longer histories
     for _ in range(ops):
         nv = len(verts)
         x = r.below(100)
@@ -1550,7 +1550,7 @@ def run(ck):
         jobs.append(("planner-data-archive", gen_pd_script(ck.rng.fork("pd%d" % i), keyed=False)))
     for i in range(70 if quick else 400):
         # histories through the by-state API, clear()/re-use, decoupleFromPlanner(), aliased state objects, extractStateStorage()
-        jobs.append(("planner-data-keyed-history", gen_pd_script(ck.rng.fork("pdk%d" % i), keyed=True)))
+        jobs.append(("planner-data-keyed-history", gen_pd_script(ck.rng.fork("pdk%d" % i), quick=quick, keyed=True)))
     for i in range(1 if quick else 6):
         jobs.append(("states-archive-large", gen_storage_script(ck.rng.fork("ssbig%d" % i), big=True, quick=quick)))
         jobs.append(("planner-data-archive-large", gen_pd_script(ck.rng.fork("pdbig%d" % i), big=True, quick=quick)))
